@@ -404,6 +404,27 @@ def static_checks():
             bad.append(f"link_arguments({src!r}, {tgt!r}) accepted although {why}")
         except ValueError:
             pass
+    # a chain through a group: one link feeds a member of group g, another takes the whole group g as its source. Either the second
+    # link is refused when added, or - whatever the order in which the links were added - the target equals the final group.
+    from typing import Dict
+
+    for order in ((0, 1), (1, 0)):
+        p = ArgumentParser(exit_on_error=False)
+        p.add_argument("--a", type=int, default=1)
+        p.add_argument("--g.x", type=int, default=3)
+        p.add_argument("--g.y", type=int, default=2)
+        p.add_argument("--d", type=Dict[str, int])
+        decl = [("g", "d"), ("a", "g.x")]
+        refused = False
+        for i in order:
+            try:
+                p.link_arguments(*decl[i])
+            except ValueError:
+                refused = True
+        if not refused:
+            cfg = p.parse_args(["--a=7"])
+            if cfg.d != cfg.g.as_dict() or cfg.g.x != 7:
+                bad.append(f"chain through group g accepted (links added in order {[decl[i] for i in order]}) and d == {cfg.d} while g == {cfg.g.as_dict()}")
     # save: no target key in single- and multi-file mode, saved file re-parses to the target
     for shape in ("plain", "init_arg", "list_items"):
         p = _build(shape)
